@@ -721,6 +721,12 @@ fn monitor_history(s: &mut Session, r: &mut Rng) {
 			1 => "tween start",
 			_ => "resume",
 		};
+		s.count(match (kstar.is_some(), w.state) {
+			(true, 1) => "event_begun_when_due",
+			(false, 2) => "event_cancelled",
+			(false, 0) => "event_still_waiting",
+			_ => "event_other",
+		});
 		match (kstar, w.state) {
 			(Some(k), 1) => {
 				let want = t.chunk_starts[k] as i64;
@@ -1101,6 +1107,36 @@ pub fn run(args: &Args) {
 			s.fail(term, "history did not complete (panic or hang in a callback)".into(), None);
 		}
 	}
+
+	// ---- boundary stream: zero / negative / NaN / large speeds, zero-frame callbacks, callbacks smaller than the buffer
+	for (k, x) in [0.0, -0.0, -1.0, -8.5, f64::NAN, 2000.0, 1e-300, 5e-324, f64::MIN_POSITIVE].iter().enumerate() {
+		for kind in 0..3u8 {
+			if kind == 0 && (*x == 0.0 || *x < 1e-3) && !x.is_nan() {
+				continue; // SecondsPerTick(0 / tiny): F7, driven in f7_cases
+			}
+			let sp = Spd { kind, x: *x };
+			let ops = vec![
+				Op::AddClock(sp),
+				Op::Start(0),
+				Op::StartProc,
+				Op::Process(16),
+				Op::StartProc,
+				Op::Obs(0),
+				Op::Process(0),
+				Op::StartProc,
+				Op::Process(5 + k),
+				Op::StartProc,
+				Op::Obs(0),
+			];
+			let sc = Scenario { sr: 512, buf: 16, fuel: 3000, ops, dyadic: false };
+			let t = run_scenario(&sc, 20000);
+			let term = scenario_term(&sc, false);
+			s.case("history_boundary_speed", term.clone(), &t.obs64, Some(key_of(&term)));
+		}
+	}
+	s.notes.push("resume_at(ClockTime): the playback state becomes Resuming (and the position advances) in the buffer k* predicted by the model, but the fade-in parameter is set after its own update in that buffer, so the first audible frame is the first frame of buffer k*+1; the harness maps the audible onset back by one buffer".into());
+	s.notes.push("hooks used (cfg(kira_verif), add-only): yield points in ClockShared::fractional_position (= between the two loads of ClockHandle::time), Clock::update_shared (between its two stores), ClockHandle::stop (between its two stores)".into());
+	s.notes.push("not driven: clock speeds linked to modulators (Value::FromModulator), streaming sounds as waiters, release-profile wrapping arithmetic".into());
 
 	// ---- monitors
 	for _ in 0..n {
